@@ -75,7 +75,9 @@ pub fn nal_units(codec: VCodec, key: bool, with_cfg: bool, tag: u32, len: usize)
                 u.push(h265_sps(0));
                 u.push(h265_pps(0));
             }
-            let mut s = vec![if key { 0x26 } else { 0x02 }, 0x01];
+            // keyframes cycle over the three picture types the convenience path documents as
+            // keyframes: IDR_W_RADL (19), IDR_N_LP (20), CRA (21)
+            let mut s = vec![if key { [0x26, 0x28, 0x2a][tag as usize % 3] } else { 0x02 }, 0x01];
             s.extend(body(tag, len.max(1)));
             u.push(s);
         }
@@ -635,7 +637,7 @@ pub fn video_frame_variant(codec: VCodec, key: bool, with_cfg: bool, tag: u32, l
             (annexb_mode(&u, tag), length_prefixed(&u))
         }
         VCodec::H265 => {
-            let mut s = vec![if key { 0x26 } else { 0x02 }, 0x01];
+            let mut s = vec![if key { [0x26, 0x28, 0x2a][tag as usize % 3] } else { 0x02 }, 0x01];
             s.extend(body(tag, len.max(1)));
             let (v, sp, pp) = (h265_vps(variant), h265_sps(variant), h265_pps(variant));
             let u = match variant % 3 {
